@@ -358,8 +358,39 @@ def scalar_literal_guard():
     raise Untranslatable("value_from_ast: unrecognised guard before parse_literal: " + ast.get_source_segment(src, test)[:120])
 
 
+def default_scalar_parse_guard():
+    """What `default_scalar(...).parse` does with non-finite floats: the `parse=` keyword is read from the source (`_identity` /
+    `_transparent` / ...) and the behaviour OBSERVED on the live function for representatives (top level, nested in lists and
+    dicts, finite values). -> (rejects_non_finite: bool, name of the parse function)"""
+    tree = ast.parse(SCALARS_PY.read_text())
+    fn = next((n for n in tree.body if isinstance(n, ast.FunctionDef) and n.name == "default_scalar"), None)
+    if fn is None:
+        raise Untranslatable("default_scalar not found")
+    call = next((x for x in ast.walk(fn) if isinstance(x, ast.Call) and getattr(x.func, "id", None) == "ScalarType"), None)
+    kw = {k.arg: k.value for k in (call.keywords if call else [])}
+    if "parse" not in kw or not isinstance(kw["parse"], ast.Name):
+        raise Untranslatable("default_scalar: parse= is not a plain function name")
+    from py_gql.schema.scalars import default_scalar
+    parse = default_scalar("X")._parse
+
+    def refused(v):
+        try:
+            parse(v)
+            return False
+        except (ValueError, TypeError):
+            return True
+    inf, nan = float("inf"), float("nan")
+    non_finite = [inf, -inf, nan, [inf], [[nan]], {"a": -inf}, {"a": [1, {"b": nan}]}, [1.5, "x", inf]]
+    finite = [1.5, 0.0, -1e308, [1.5], {"a": [2.5, None, "inf"]}, "nan", 5, None, True, []]
+    verdicts = {refused(v) for v in non_finite}
+    if len(verdicts) != 1 or any(refused(v) for v in finite):
+        raise Untranslatable("default_scalar.parse does not treat non-finite floats uniformly / refuses a finite value")
+    return verdicts.pop(), kw["parse"].id
+
+
 def extract(ctx):
     consts, accepted, pysrc = int_range_test()
+    ds_rejects, ds_fn = default_scalar_parse_guard()
     any_literal, guard_text = scalar_literal_guard()
     int_rows = dispatch_table("coerce_int")
     guard, guard_src = float_guard()
@@ -392,6 +423,10 @@ def extract(ctx):
         "/-- value_from_ast raises InvalidValue before `parse_literal` when `%s`:" % " ".join(guard_text.split()).replace("-/", "- /"),
         "    a custom scalar that brought its OWN parse_literal is handed every kind of literal (list / object / enum / null inside). -/",
         "def customOwnParseLiteralTakesAnyLiteral : Bool := %s" % ("true" if any_literal else "false"),
+        "",
+        "/-- `default_scalar(...)`: `parse=%s`; observed on the live function: NaN / +-Infinity, at the top level and nested in lists / dicts," % ds_fn,
+        "    are refused (ValueError), finite values pass. -/",
+        "def defaultScalarParseRejectsNonFinite : Bool := %s" % ("true" if ds_rejects else "false"),
         "",
         "/-- literal kinds admitted by each specified scalar's `parse_literal` (`_typed_coerce(f, *node classes)`) -/",
         "def literalKinds : List (String × List String) := [",
